@@ -109,6 +109,19 @@ func c07Corpus() []c07Prog {
 		p.Flow("A", "end", "")
 		mk("twelve tokens into one task and one end event", p, "", nil, []string{"A"}, "")
 	}
+	{ // a sub-process that cannot start (no start event inside): error trace, the token stays at the sub-process
+		p := &Prog{}
+		p.Node("start", "start")
+		p.Node("task", "A")
+		n := p.Node("sub", "S")
+		n.Sub = &Prog{nflow: 1000}
+		n.Sub.Node("task", "X")
+		p.Node("end", "end")
+		p.Flow("start", "A", "")
+		p.Flow("A", "S", "")
+		p.Flow("S", "end", "")
+		mk("sub-process without a start event", p, "", nil, []string{"A"}, "")
+	}
 	{ // timer catch event waiting
 		p := &Prog{}
 		p.Node("start", "start")
